@@ -187,8 +187,19 @@ func runCheck(prop, tier, repo, verif string, verbose, writeEv bool) int {
 		qt, st = 30*time.Second, 60*time.Second
 		all = true
 	}
-	dischargeAll(run.obls, runtime.NumCPU(), qt, st, all)
-	secondChance(run.obls, qt, st)
+	// obligations recorded as open findings are expected to fail: give them a short limit only
+	kf := loadKnown(verif)
+	var normal, expectedFail []*Obligation
+	for _, o := range run.obls {
+		if kf.open(prop, o.Name) != nil {
+			expectedFail = append(expectedFail, o)
+		} else {
+			normal = append(normal, o)
+		}
+	}
+	dischargeAll(normal, runtime.NumCPU(), qt, st, all)
+	dischargeAll(expectedFail, runtime.NumCPU(), 4*time.Second, 4*time.Second, false)
+	secondChance(normal, qt, st)
 	run.wall = time.Since(t0).Seconds()
 	return report(run, verif, verbose, writeEv)
 }
